@@ -555,6 +555,10 @@ def apiMultiOp (row : OpRow) (maps : List MapObj) : Except Err MapObj := do
   let norm (m : MapObj) : State Val :=
     ⟨m.st.cov, m.st.sp.map fun x => if m.vc.valid x then x else vc.sentinel⟩
   if maps.any (fun m => m.st.sp.any fun x => m.vc.valid x && !vc.valid x) then throw .inexact
+  -- integer inputs converted to a floating-point output must be exact in float64
+  if dtOut.isFlt && maps.any (fun m => m.st.sp.any fun x => match x with
+      | .num n e => !(fitsFloat 64 (n, e) || decide (n.natAbs > 2 ^ 100))
+      | _ => false) then throw .inexact
   match multiOp first.c vc (maps.map norm) f filler row.union row.fillFirst with
   | none => throw .index
   | some st =>
